@@ -75,6 +75,22 @@ def visible(method):
     return {'method': method, 'child_saw': saw, 'parent_saw': arr[1]}
 
 
+def handed_on(method):
+    """creator -> process A -> process B: an object that A merely received is still the shared one
+    when A hands it on (simple types: what travels is a reference to the block, never a copy)"""
+    ctx = billiard.get_context(method)
+    val = ctx.Value('i', 7)
+    dbl = ctx.Value('d', 1.25)
+    r, w = ctx.Pipe(duplex=False)
+    p = ctx.Process(target=targets.relay, args=(method, val, dbl, w))
+    p.start()
+    w.close()
+    code = r.recv() if r.poll(60) else 'no answer'
+    p.join(10)
+    return {'method': method + '/two-hop', 'end_exit': code, 'int': val.value, 'double': dbl.value,
+            'expected': [257, 1.75]}
+
+
 def fork_isolation():
     """objects allocated after a fork, one in the child and one in the parent, do not share storage"""
     ctx = billiard.get_context('fork')
@@ -181,6 +197,7 @@ def main():
         res['counters'].append(counters(method, 4 if thorough else 3, 300 if thorough else 100))
         res['counters'].append(counters(method, 3, 100, held=True))
         res['visibility'].append(visible(method))
+        res.setdefault('handed_on', []).append(handed_on(method))
     with open(out + '.tmp', 'w') as fh:
         json.dump(res, fh)
     os.replace(out + '.tmp', out)
